@@ -16,6 +16,9 @@ EXPLANATION = (
     "is made; R5 the file-name literals used for discovery are one consistent table (pkg.roto / mod.roto / roto extension, root module "
     "name = the `pkg` keyword); R6 exported function names are joined with the separator that get_function prepends after `pkg`."
 )
+EXPLANATION += (  # round-3 supplement
+    ' R2 is decided on MIR data flow (scope starts at the parameter and is fed back from the found declaration, flag starts true and is false afterwards). R7 lexical scopes are children of the scope the expression is checked in.'
+)
 ASSUMPTIONS = [
     "BTreeMap/HashMap lookups are exact-key lookups",
 ]
